@@ -581,10 +581,12 @@ class ExtendedIndexedOperand(Operand):
                 if additional.is_negative():
                     if additional.is_8_bit():
                         raw_post_byte |= 0x98
+                        size += 1
                         additional = 0x100 - additional.int
                         additional = NumericValue(additional)
                     else:
                         raw_post_byte |= 0x99
+                        size += 2
                         additional = 0x10000 - additional.int
                         additional = NumericValue(additional)
                 elif additional.is_8_bit():
@@ -598,6 +600,9 @@ class ExtendedIndexedOperand(Operand):
                     size += additional.byte_len()
                     max_size = size
                     raw_post_byte |= 0x99 if self.left.is_extended() else 0x98
+
+        if not post_byte_choices:
+            max_size = size
 
         return CodePackage(
             op_code=NumericValue(self.instruction.mode.ind),
@@ -711,10 +716,12 @@ class IndexedOperand(Operand):
                         additional = NoneValue()
                     elif additional.is_8_bit():
                         raw_post_byte |= 0x88
+                        size += 1
                         additional = 0x100 - additional.int
                         additional = NumericValue(additional)
                     else:
                         raw_post_byte |= 0x89
+                        size += 2
                         additional = 0x10000 - additional.int
                         additional = NumericValue(additional)
                 elif additional.is_4_bit():
@@ -731,6 +738,9 @@ class IndexedOperand(Operand):
                     size += additional.byte_len()
                     max_size = size
                     raw_post_byte |= 0x89 if self.left.is_extended() else 0x88
+
+        if not post_byte_choices:
+            max_size = size
 
         return CodePackage(
             op_code=NumericValue(self.instruction.mode.ind),
